@@ -645,6 +645,8 @@ package server
 // C04 / C05 / C19: a batch is written under the dataset's write lock, ids are committed before the data that names
 // them, the call is acknowledged only after the data transaction committed, the counter is updated after the commit
 
+// the shared id transaction is only looked at, replaced and committed under the id lock
+//@ guarded Store.idtxn by idmux
 // the shared id transaction is committed under the id lock; an acknowledged commit leaves no pending id transaction behind
 //@ unit (*Store).commitIDTxn
 //@   prop C04 C05
@@ -1450,6 +1452,7 @@ package server
 //@   ghost posG intmap
 //@   ghost queriedG intset = emptyset()
 //@   ghost contG intset = emptyset()
+//@   ghost pageRelsG []RelatedEntityResult
 //@   requires s != nil && limit >= 0
 //@   ensures [every-start-point-not-queried-is-carried-over] ret1 == nil ==> (forall k int :: 0 <= k && k < len(from) && !has(queriedG, k) ==> 0 <= posG[k] && posG[k] < len(ret0.Cont) && ret0.Cont[posG[k]] == from[k])
 //@   ensures [every-continuation-of-a-queried-start-point-is-carried-over] ret1 == nil ==> (forall k int :: has(contG, k) ==> 0 <= posG[k] && posG[k] < len(ret0.Cont) && ret0.Cont[posG[k]] != nil)
@@ -1461,6 +1464,10 @@ package server
 //@   at call append#1 before
 //@     ghost contG := add(contG, $i1 + 1)
 //@     ghost posG := put(posG, $i1 + 1, len(relatedFroms))
+//@   at call getRelatedEntitiesAtTime#1
+//@     ghost pageRelsG := $result0.Relations
+//@   at call append#2 before
+//@     assert [every-relation-a-start-point-returned-is-handed-on-because-its-continuation-already-points-past-them] $arg1 == pageRelsG && $arg0 == result.Relations
 //@   at call append#3 before
 //@     assert [skipped-only-when-the-limit-is-used-up] limit0 > 0 && len(result.Relations) >= limit0
 //@     ghost posG := put(posG, $i1 + 1, len(relatedFroms))
